@@ -367,6 +367,12 @@ class MechanicHarness(Harness):
                 system.host_leave(ip)
 
         system.on_deliver = on_deliver
+
+        def on_send(src, dst, msg):
+            if type(msg).__name__ == "EngineStopped" and src is not None and src.cls is not None and src.cls.__name__ == "MechanicActor":
+                state.setdefault("engine_stopped_sent", (clock.now, sum(1 for d in deliveries if d[1] == "MechanicActor" and d[2] == "NodesStopped")))
+
+        system.on_send = on_send
         outcome = {"started": None, "stopped": None, "failure": None}
         try:
             supplier.create = supplier_create
@@ -581,10 +587,16 @@ class MechanicHarness(Harness):
                 bad("cleanup", "removed-despite-preserve", f"[{what}]: node {n}: preserve is set but only {left} is left")
             if not cfg["preserve"] and left:
                 bad("cleanup", "not-removed", f"[{what}]: node {n}: {left} still exists after stop")
-        if "EngineStarted" in names and cfg["stop"] == "stop" and not gone:
+        # (a daemon that leaves after all its node mechanics have confirmed the stop changes nothing about what is owed)
+        if "EngineStarted" in names and cfg["stop"] == "stop" and (not gone or fault.get("when") == "after-stopped"):
             if names_all.count("EngineStopped") != 1:
                 bad("engine-stopped", "count", f"[{what}]: EngineStopped reached race control {names_all.count('EngineStopped')} times ({names_all})")
             else:
+                # ... acknowledged only after all hosts have confirmed: one NodesStopped per (ip, port) must have reached the mechanic
+                groups = len(set(cfg["targets"]))
+                sent = state.get("engine_stopped_sent")
+                if sent is not None and sent[1] < groups:
+                    bad("engine-stopped", "before-all-confirmations", f"[{what}]: EngineStopped was sent at {sent[0]:.4f} after {sent[1]} of {groups} NodesStopped confirmations had arrived")
                 t_stop = [r[0] for r in replies if r[1] == "EngineStopped"][0]
                 late = [e for e in rec.events if e[1] == "node-stopped" and e[0] > t_stop]
                 if late:
